@@ -21,10 +21,11 @@ def parse_timezone(s: str) -> datetime.timezone:
     if match.group(1):
         hours = int(match.group(2))
         minutes = int(match.group(3))
+        if match.group(2).startswith("-"):
+            # the sign belongs to the whole offset, also when hours == 0
+            minutes = -minutes
         return datetime.timezone(
-            datetime.timedelta(
-                hours=hours, minutes=minutes if hours >= 0 else -minutes
-            )
+            datetime.timedelta(hours=hours, minutes=minutes)
         )
     else:
         return datetime.timezone.utc
